@@ -282,8 +282,9 @@ class Gen:
                     sep = rng.choice(WHITESPACE)
                     while rng.random() < 0.1:
                         sep += rng.choice(WHITESPACE)
-                if rng.random() < 0.04:
-                    sep += rng.choice(COMMENTS) + "\n" + rng.choice(["", " ", "\t"])
+                if rng.random() < 0.06:
+                    # a comment may directly abut the token before it, and the next line may start in column 0
+                    sep = (sep if rng.random() < 0.5 else "") + rng.choice(COMMENTS) + "\n" + rng.choice(["", "", " ", "\t"])
                 out.append(sep)
             out.append(tok)
         if rng.random() < 0.3:
@@ -398,7 +399,10 @@ class C02(Property):
             "limits, repeated requests; in half of the steps preceded by check_options, whose verdict is checked against "
             "the Lean spec `optionsOk`), every ruleset read when returned and again after the last call, checked "
             "against the Lean spec `wanted` (shipped rules restricted and scaled once); Ruleset.from_files with "
-            "multipliers.  non-trivial = an accepted file with a condition of "
+            "multipliers; `layout`: written words (keywords, identifiers, numbers, symbols, tokens of generated files) with "
+            "arbitrary gaps of whitespace characters and #-comments, incl. a comment as the only separator (abutting the "
+            "word before it, next word in column 0) and an unterminated tail comment, re-rendered by the Lean spec and "
+            "checked against `tokenise_layout`'s right-hand side.  non-trivial = an accepted file with a condition of "
             "depth >= 2, or a rejected corruption of one; distinct by text")
     TRUSTED = ["Python str.isalnum/isalpha/isdigit and int() are modelled for ASCII only (generators emit ASCII)",
                "`text.expandtabs()` and line/position bookkeeping only affect error messages, which are not observed",
@@ -553,6 +557,62 @@ class C02(Property):
             text = "".join(rng.choice(chars) for _ in range(rng.choice([1, 3, 8, 20])))
             yield {"kind": "tokens", "text": text}
 
+    # layout: written words with arbitrary filler between them, in the vocabulary of Spec/TokenLayout.lean
+    LAYOUT_WORDS = ["a", "b", "not", "and", "or", "cds", "minimum", "minscore", "RULE", "CATEGORY", "CUTOFF", "CONDITIONS",
+                    "DEFINE", "AS", "SUPERIORS", "12", "0", "x-y", "-a", "_b", "PKS_KS", "a:b", "x/y", "http://u/v", "AMP-binding",
+                    "(", ")", "[", "]", ",", "."]
+    COMMENT_BODIES = ["", "x", " note", " RULE x CONDITIONS (", "# twice", " see https://doi.org/10.1/x $%&", "a or b", "\tq\r", " "]
+    WS_CHARS = [" ", " ", "\n", "\n", "\t", "\r", "\x0b", "\x0c"]
+
+    def layout_gap(self, rng: random.Random, may_be_empty: bool) -> List[Dict[str, str]]:
+        roll = rng.random()
+        if may_be_empty and roll < 0.35:
+            return []
+        if roll < 0.55:
+            gap = [{"ws": rng.choice(self.WS_CHARS)}]
+        elif roll < 0.8:
+            gap = [{"c": rng.choice(self.COMMENT_BODIES)}]       # the comment abuts the word before it, the next is in column 0
+        elif roll < 0.9:
+            gap = [{"c": rng.choice(self.COMMENT_BODIES)}, {"c": rng.choice(self.COMMENT_BODIES)}]
+        else:
+            gap = [{"ws": rng.choice(self.WS_CHARS)}, {"c": rng.choice(self.COMMENT_BODIES)}]
+        while rng.random() < 0.2:
+            gap.append({"ws": rng.choice(self.WS_CHARS)} if rng.random() < 0.6 else {"c": rng.choice(self.COMMENT_BODIES)})
+        return gap
+
+    @staticmethod
+    def layout_text(items: List[Dict[str, Any]], tail: Dict[str, Any]) -> str:
+        def gap_text(gap: List[Dict[str, str]]) -> str:
+            return "".join(g["ws"] if "ws" in g else "#" + g["c"] + "\n" for g in gap)
+        return ("".join(gap_text(it["gap"]) + it["w"] for it in items) + gap_text(tail["gap"])
+                + ("#" + tail["open"] if tail.get("open") is not None else ""))
+
+    def layout_case(self, rng: random.Random, words: List[str]) -> Dict[str, Any]:
+        items = []
+        prev_word = False
+        for w in words:
+            is_word = w not in SYMBOLS
+            items.append({"gap": self.layout_gap(rng, may_be_empty=not (prev_word and is_word)), "w": w})
+            prev_word = is_word
+        tail = {"gap": self.layout_gap(rng, True) if rng.random() < 0.5 else [],
+                "open": rng.choice(self.COMMENT_BODIES) if rng.random() < 0.25 else None}
+        return {"kind": "layout", "items": items, "tail": tail, "text": self.layout_text(items, tail)}
+
+    def layout_cases(self, rng: random.Random, count: int) -> Iterator[Dict[str, Any]]:
+        # the two smallest texts in which only the comment separates two words
+        for words in (["not", "b"], ["CATEGORY", "C"]):
+            items = [{"gap": [], "w": words[0]}, {"gap": [{"c": "x"}], "w": words[1]}]
+            tail = {"gap": [], "open": None}
+            yield {"kind": "layout", "items": items, "tail": tail, "text": self.layout_text(items, tail)}
+        for k in range(count):
+            if k % 3 == 0:   # the tokens of a generated rule file
+                files, _, _ = Gen(rng).ruleset()
+                words = [tok for item in files[0] for tok in item][:rng.choice([6, 15, 40])]
+            else:
+                words = [rng.choice(self.LAYOUT_WORDS) for _ in range(rng.choice([1, 2, 3, 5, 9]))]
+            if words:
+                yield self.layout_case(rng, words)
+
     # rulesets: sequences of get_ruleset() calls within one process, and Ruleset.from_files
     MULT_VALUES = [0.5, 1.0, 1.0, 1.5, 2.0, 0.25, 3.0, 1.25, None, None]
     SOME_RULES = ["T1PKS", "NRPS", "terpene", "lanthipeptide-class-i", "T3PKS", "NRPS-like", "siderophore",
@@ -603,6 +663,7 @@ class C02(Property):
     def cases(self, rng: random.Random, tier: str, deep: bool) -> Iterator[Dict[str, Any]]:
         yield from self.ruleset_cases(rng, 150 if tier == "thorough" else 40 if deep else 12)
         yield from self.from_files_cases(rng, 12 if deep else 4)
+        yield from self.layout_cases(rng, 20000 if tier == "thorough" else 4000 if deep else 400)
         for level in ("strict", "relaxed", "loose"):
             yield {"kind": "parse", "shipped": level, "via": "create", "cmul": [1, 1], "nmul": [1, 1]}
         yield {"kind": "parse", "shipped": "loose", "via": "create", "cmul": [3, 2], "nmul": [1, 2]}
@@ -675,7 +736,7 @@ class C02(Property):
         from antismash.common.hmm_rule_parser import rule_parser as rp
         from antismash.common.hmm_rule_parser.cluster_prediction import create_rules
         from antismash.common.hmm_rule_parser.structures import Multipliers
-        if case["kind"] == "tokens":
+        if case["kind"] in ("tokens", "layout"):
             try:
                 toks = rp.Tokeniser(case["text"]).tokens
             except Exception as exc:  # pylint: disable=broad-except
@@ -799,6 +860,8 @@ class C02(Property):
     def driver_line(self, case: Dict[str, Any], obs: Dict[str, Any]) -> Optional[Dict[str, Any]]:
         if case["kind"] == "tokens":
             return {"kind": "tokens", "text": case["text"]}
+        if case["kind"] == "layout":
+            return {"kind": "layout", "text": case["text"], "items": case["items"], "tail": case["tail"]}
         if case["kind"] == "rulesets":
             sigs, cats = self._shipped()
             return {"kind": "rulesets", "sigs": sigs, "cats": cats, "steps": obs["reqs"],
@@ -827,6 +890,21 @@ class C02(Property):
             return Judgement(same, True, nontrivial=bool(obs.get("tokens")) and len(obs["tokens"]) > 2,
                              tags=("tokeniser", "tok-error" if "err_tok" in obs else "tok-ok"),
                              detail="" if same else f"tokeniser: model {drv} vs implementation {obs}")
+        if case["kind"] == "layout":
+            if not drv.get("render_ok"):
+                return Judgement(False, True, detail="layout: the harness text is not the spec's rendering of the items")
+            same = (obs.get("tokens") == drv.get("tokens") and obs.get("err_tok") == drv.get("err_tok"))
+            spec_ok = (not drv["scope"]) or obs.get("tokens") == drv["expect"]
+            detail = ""
+            if not spec_ok:
+                detail = (f"layout: the text {case['text']!r} is the words {[it['w'] for it in case['items']]} written with "
+                          f"whitespace/comments between them, but the tokeniser returned "
+                          f"{[t[0] for t in obs['tokens']] if 'tokens' in obs else obs}")
+            elif not same:
+                detail = f"layout: model {drv.get('tokens', drv.get('err_tok'))} vs implementation {obs}"
+            abut = any(it["gap"] and "c" in it["gap"][0] for it in case["items"][1:])
+            return Judgement(same, spec_ok, in_scope=bool(drv["scope"]), nontrivial=len(case["items"]) >= 2 and abut,
+                             tags=("layout", "abutting-comment" if abut else "layout-plain"), detail=detail)
         if case["kind"] == "rulesets":
             return self._judge_rulesets(case, obs, drv)
         if case["kind"] == "from_files":
@@ -952,7 +1030,7 @@ class C02(Property):
     def key(self, case: Dict[str, Any]) -> str:
         import hashlib
         import json
-        c = {k: case.get(k) for k in ("kind", "files", "text", "shipped", "cmul", "nmul", "steps", "strictness", "via")}
+        c = {k: case.get(k) for k in ("kind", "files", "text", "shipped", "cmul", "nmul", "steps", "strictness", "via", "items", "tail")}
         return hashlib.md5(json.dumps(c, sort_keys=True).encode()).hexdigest()
 
     # ------------------------------------------------------------------ shrinking
@@ -961,6 +1039,22 @@ class C02(Property):
             text = case["text"]
             for i in range(len(text)):
                 yield dict(case, text=text[:i] + text[i + 1:])
+            return
+        if case["kind"] == "layout":
+            items, tail = case["items"], case["tail"]
+            def again(its: List[Dict[str, Any]], tl: Dict[str, Any]) -> Dict[str, Any]:
+                return {"kind": "layout", "items": its, "tail": tl, "text": self.layout_text(its, tl)}
+            for i in range(len(items)):
+                if len(items) > 1:
+                    yield again(items[:i] + items[i + 1:], tail)
+            if tail["gap"] or tail.get("open") is not None:
+                yield again(items, {"gap": [], "open": None})
+            for i, it in enumerate(items):
+                for g in range(len(it["gap"])):
+                    yield again(items[:i] + [dict(it, gap=it["gap"][:g] + it["gap"][g + 1:])] + items[i + 1:], tail)
+                for g, f in enumerate(it["gap"]):
+                    if f.get("c"):
+                        yield again(items[:i] + [dict(it, gap=it["gap"][:g] + [{"c": ""}] + it["gap"][g + 1:])] + items[i + 1:], tail)
             return
         if case["kind"] == "rulesets":
             steps = case["steps"]
